@@ -15,6 +15,11 @@ pub trait BuiltVisitor {
 }
 
 pub fn with_presentation(g: &Graph, p: Presentation, v: &mut impl BuiltVisitor) {
+    let note = || format!("some library call on {} [{}]", g.describe(), p.name());
+    crate::mem::with_note(&note, || with_presentation_inner(g, p, v))
+}
+
+fn with_presentation_inner(g: &Graph, p: Presentation, v: &mut impl BuiltVisitor) {
     match p {
         Presentation::Apx => {
             let b = build_apx(g);
@@ -249,6 +254,9 @@ impl<'r> BuiltVisitor for StaticSweep<'r> {
         self.acc.built += 1;
         let queries = self.queries;
         for q in queries {
+            let (g0, pres0) = (self.g, self.pres);
+            let note = move || format!("{} {:?} cert={} enc={} on {} [{}]", q.problem(), q.args, q.cert, q.enc.name(), g0.describe(), pres0.name());
+            crate::mem::with_note(&note, || {
             self.acc.queries += 1;
             let cfgs = self.cfgs;
             for cfg in cfgs {
@@ -292,6 +300,7 @@ impl<'r> BuiltVisitor for StaticSweep<'r> {
                 self.acc.cadical_runs += 1;
                 self.handle::<T>(q, "cadical", FvPolicy::False, &[], &result);
             }
+            });
         }
     }
 }
